@@ -51,14 +51,71 @@ def _handler_names(h: ast.ExceptHandler) -> set[str]:
     return {(dotted(x) or "?").rsplit(".", 1)[-1] for x in (h.type.elts if isinstance(h.type, ast.Tuple) else [h.type])}
 
 
+def composed_parts(e: ast.AST) -> list[ast.AST] | None:
+    """the operands, in order, of a string put together by an equivalent of an f-string: ``"{}/{}".format(a, b)``
+    (plain positional fields only), ``"%s/%s" % (a, b)`` (%s only), ``"sep".join((a, b))`` (literal tuple / list).
+    Constant text comes back as ast.Constant nodes.  None: not such a composition."""
+    if isinstance(e, ast.Call) and isinstance(e.func, ast.Attribute) and not e.keywords and not any(isinstance(a, ast.Starred) for a in e.args):
+        tmpl = const_str(e.func.value)
+        if tmpl is not None and e.func.attr == "join" and len(e.args) == 1 and isinstance(e.args[0], (ast.Tuple, ast.List)) and not any(isinstance(x, ast.Starred) for x in e.args[0].elts):
+            out: list[ast.AST] = []
+            for i, x in enumerate(e.args[0].elts):
+                if i and tmpl:
+                    out.append(ast.Constant(value=tmpl))
+                out.append(x)
+            return out
+        if tmpl is not None and e.func.attr == "format":
+            import string
+
+            out, auto = [], 0
+            try:
+                fields = list(string.Formatter().parse(tmpl))
+            except ValueError:
+                return None
+            for text, field, spec, conv in fields:
+                if text:
+                    out.append(ast.Constant(value=text))
+                if field is None:
+                    continue
+                if spec or conv or not (field == "" or field.isdigit()):
+                    return None
+                idx = int(field) if field else auto
+                auto += 1
+                if idx >= len(e.args):
+                    return None
+                out.append(e.args[idx])
+            return out
+    if isinstance(e, ast.BinOp) and isinstance(e.op, ast.Mod):
+        tmpl = const_str(e.left)
+        if tmpl is not None:
+            args = list(e.right.elts) if isinstance(e.right, ast.Tuple) else [e.right]
+            if any(isinstance(a, ast.Starred) for a in args):
+                return None
+            bits = tmpl.split("%s")
+            if any("%" in b.replace("%%", "") for b in bits) or len(bits) - 1 != len(args):
+                return None
+            out = []
+            for i, b in enumerate(bits):
+                if b:
+                    out.append(ast.Constant(value=b.replace("%%", "%")))
+                if i < len(args):
+                    out.append(args[i])
+            return out
+    return None
+
+
 def str_pieces(e: ast.AST) -> list[tuple[str, t.Any]]:
     """string composition -> ("c", text) / ("e", expr) pieces, constants fused."""
     out: list[tuple[str, t.Any]] = []
 
     def go(x: ast.AST) -> None:
         s = const_str(x)
+        comp = composed_parts(x) if s is None else None
         if s is not None:
             out.append(("c", s))
+        elif comp is not None:
+            for y in comp:
+                go(y)
         elif isinstance(x, ast.JoinedStr):
             for v in x.values:
                 if isinstance(v, ast.FormattedValue) and v.conversion == -1 and v.format_spec is None:
@@ -168,14 +225,40 @@ class Matcher:
         return out
 
     # -- roles --------------------------------------------------------------
+    def path_sites(self, fn: ast.AST) -> list[tuple[ast.Raise, ast.AST | None, Node | None, ast.AST]]:
+        """the places where a RequestPath target is decided: (raise, target expression, node where it is evaluated,
+        statement).  `raise RequestPath(t)` with t a local that only plain assignments reach (the target chosen per
+        branch, raised once) gives one site per assignment."""
+        g, rd = self.graphs[id(fn)], self.rd(fn)
+        out: list[tuple[ast.Raise, ast.AST | None, Node | None, ast.AST]] = []
+        for r in walk_no_nested(fn):
+            if not (isinstance(r, ast.Raise) and astq.raised_name(r) == "RequestPath"):
+                continue
+            arg = r.exc.args[0] if isinstance(r.exc, ast.Call) and r.exc.args else None
+            node = g.node_of(r)
+            if isinstance(arg, ast.Name) and node is not None:
+                ds = rd.reaching(node, arg.id)
+                if ds and all(d.kind == "assign" and d.index is None and d.value is not None and d.node is not None and d.stmt is not None for d in ds):
+                    out += [(r, d.value, d.node, d.stmt) for d in sorted(ds, key=lambda d: getattr(d.stmt, "lineno", 0))]
+                    continue
+            out.append((r, arg, node, r))
+        return out
+
+    def site_handler(self, site: tuple[ast.Raise, ast.AST | None, Node | None, ast.AST], fn: ast.AST) -> ast.ExceptHandler | None:
+        """the handler of fn in which the site's raise - else its target assignment - lies."""
+        for x in (site[0], site[3]):
+            h = astq.enclosing(x, (ast.ExceptHandler,))
+            if isinstance(h, ast.ExceptHandler) and self.owner(h) is fn:
+                return h
+        return None
+
     def _signals(self) -> set[str]:
         signals: set[str] = set()
         for f in self.funcs:
-            for tr in walk_no_nested(f):
-                if isinstance(tr, ast.Try):
-                    for h in tr.handlers:
-                        if any(astq.raised_name(r) == "RequestPath" for r in astq.raises_of(h, nested=False)):
-                            signals |= _handler_names(h)
+            for site in self.path_sites(f):
+                h = self.site_handler(site, f)
+                if h is not None:
+                    signals |= _handler_names(h)
         signals -= {"?", "Exception", "BaseException"}
         if not signals:
             raise AnalysisError("StateMachineMatcher: no handler that turns a slash signal into RequestPath")
@@ -514,14 +597,23 @@ class Paths:
             e, node = d.value, d.node  # type: ignore[assignment]
         return e, node
 
-    def same(self, a: ast.AST, an: Node, b: ast.AST, bn: Node, fn: ast.AST) -> tuple[bool, str]:
+    def same(self, a: ast.AST, an: Node, b: ast.AST, bn: Node, fn: ast.AST, via: tuple[Node | None, ast.ExceptHandler] | None = None) -> tuple[bool, str]:
+        """via = (node of the walk call, handler): b is evaluated in the handler, entered by the signal that call raised.
+        A name the handler does not rebind before b then has the value it had when the call was made (the definitions
+        that reach the call), although the handler's entry joins the definitions of every statement of the try body."""
         a, an = self.resolve(a, an, fn)
         b, bn = self.resolve(b, bn, fn)
         if norm(a) != norm(b):
             return False, f"`{norm(a)}` is walked but `{norm(b)}` is used"
         rd = self.m.rd(fn)
+        inside = {id(x) for x in ast.walk(via[1])} if via is not None else set()
+        if via is not None and (bn.ast is None or id(bn.ast) not in inside):
+            via = None  # b stands for a value computed outside the handler (an alias made before the walk): compared there
         for nm in sorted({x.id for x in ast.walk(a) if isinstance(x, ast.Name)}):
             da, db = rd.reaching(an, nm), rd.reaching(bn, nm)
+            if via is not None and via[0] is not None and not any(d.stmt is not None and id(d.stmt) in inside for d in db) \
+                    and not (via[0].ast is not None and nm in _store_names(via[0].ast)):
+                db = rd.reaching(via[0], nm)
             if da != db:
                 def show(ds: t.Iterable[Def]) -> str:
                     return "{" + ", ".join(sorted("parameter" if d.kind == "param" else f"L{getattr(d.stmt, 'lineno', '?')}: {norm(d.value)[:40] if d.value is not None else d.kind}" for d in ds)) + "}"
@@ -575,14 +667,15 @@ def matcher_rules(ctx: Ctx) -> None:
         g = m.graphs[id(fn)]
         where = m.owner_fi[id(fn)]
         rd = m.rd(fn)
-        for r in (n for n in walk_no_nested(fn) if isinstance(n, ast.Raise) and astq.raised_name(n) == "RequestPath"):
-            h = astq.enclosing(r, (ast.ExceptHandler,))
-            if isinstance(h, ast.ExceptHandler) and m.owner(h) is fn and _handler_names(h) and _handler_names(h) <= m.signals:
+        for site in m.path_sites(fn):
+            r, _value, node, at = site
+            h = m.site_handler(site, fn)
+            if h is not None and _handler_names(h) and _handler_names(h) <= m.signals:
                 continue  # vetted by (a) and R12.6
             k += 1
-            node = g.node_of(r)
             vetted = None
-            for tn, lb in (g.guards(node) if node is not None else []):
+            rn = g.node_of(r) if at is not r else None  # target chosen in a local: guards of the assignment and of the raise
+            for tn, lb in (list(g.guards(node)) if node is not None else []) + (list(g.guards(rn)) if rn is not None else []):
                 if tn.kind != "test" or tn.ast is None:
                     continue
                 a = tn.ast
@@ -618,7 +711,7 @@ def matcher_rules(ctx: Ctx) -> None:
         where = m.owner_fi[id(fn)]
         for tr in sorted((x for x in walk_no_nested(fn) if isinstance(x, ast.Try)), key=lambda x: x.lineno):
             for h in tr.handlers:
-                raises = [r for r in astq.raises_of(h, nested=False) if astq.raised_name(r) == "RequestPath"]
+                raises = [site for site in m.path_sites(fn) if m.site_handler(site, fn) is h]
                 if not raises or not (_handler_names(h) & m.signals):
                     continue
                 n_h += 1
@@ -626,17 +719,16 @@ def matcher_rules(ctx: Ctx) -> None:
                          if (cal := m.callee(c, fn)) is not None and id(cal) in m.escaping]
                 if not walks:
                     raise AnalysisError(f"the handler of the slash signal at {where.loc(h)} protects no call that can raise it")
-                for r in raises:
-                    arg = r.exc.args[0] if isinstance(r.exc, ast.Call) and r.exc.args else None
-                    rnode = g.node_of(r)
+                for r, arg, rnode, _at in raises:
                     if arg is None or rnode is None:
                         raise AnalysisError(f"RequestPath raised without a path at {where.loc(r)}")
-                    ps = str_pieces(arg)
-                    if len(ps) == 1 and ps[0][0] == "e" and isinstance(ps[0][1], ast.Name):  # target put together in a local first
-                        d = paths._one_def(ps[0][1].id, rnode, fn)
-                        if d is not None and isinstance(d.value, (ast.JoinedStr, ast.BinOp)):
-                            ps, rnode = str_pieces(d.value), d.node  # type: ignore[assignment]
+                    ps = str_pieces(arg)  # (a target put together in a local first: the site is the assignment)
                     shaped = len(ps) == 2 and ps[0][0] == "e" and ps[1] == ("c", "/")
+                    # a target whose pieces are not all plain values (a call, a conditional, ...) is not understood
+                    opaque = [p[1] for p in ps if p[0] == "e" and not isinstance(p[1], (ast.Name, ast.Attribute, ast.Subscript))]
+                    if not shaped and opaque:
+                        raise AnalysisError(f"the slash redirect target `{norm(arg)}` at {where.loc(r)} is put together in a way that is not followed (`{norm(opaque[0])[:60]}`)")
+                    in_handler = rnode.ast is not None and any(x is rnode.ast for x in ast.walk(h))
                     for c in walks:
                         j += 1
                         key = f"slash redirect target {j} is the walked path"
@@ -647,7 +739,7 @@ def matcher_rules(ctx: Ctx) -> None:
                         walked = paths.walked(c, fn)
                         if not walked or len({norm(x) for x, _ in walked}) != 1:
                             raise AnalysisError(f"cannot identify the path value walked by `{norm(c)[:70]}` at {where.loc(c)} (no single `<path>.split('/')` among its arguments)")
-                        ok, fact = paths.same(walked[0][0], walked[0][1], ps[0][1], rnode, fn)
+                        ok, fact = paths.same(walked[0][0], walked[0][1], ps[0][1], rnode, fn, via=(g.node_of(c), h) if in_handler else None)
                         ctx.ob("R12.6", inst, ok, fact + f" (target `{norm(arg)}`)", where, r, key)
     ctx.floor("R12.6", "handlers that turn the slash signal into RequestPath", n_h, 1)
 
@@ -710,9 +802,16 @@ class Flow:
                 if isinstance(f, ast.Attribute) and isinstance(f.value, ast.Name) and f.attr in _MUTATORS:
                     self.writes.setdefault(f.value.id, []).append((n, args, norm(c)[:70]))
                 elif isinstance(a, ast.Expr) and a.value is c:
-                    # a call made for its effect with the value among its arguments: a helper that may fill it
+                    # a call made for its effect with the value among its arguments: a helper that may fill it - unless
+                    # the helper is a function of the matcher that stores nothing into that parameter
+                    cal = m.callee(c, fn)
+                    binding = m.bind(c, cal) if cal is not None else None
                     for x in args:
                         if isinstance(x, ast.Name):
+                            if binding is not None and cal is not None:
+                                ps = [p_ for p_, v in binding.items() if v is x]
+                                if ps and not any(_stores_into(cal, p_) for p_ in ps):
+                                    continue
                             others = [y for y in args if y is not x] + ([f.value] if isinstance(f, ast.Attribute) and not astq.is_name(f.value, "self") else [])
                             self.writes.setdefault(x.id, []).append((n, others, norm(c)[:70]))
 
@@ -815,6 +914,26 @@ class Flow:
         return {name}
 
 
+def _stores_into(fn: ast.AST, name: str) -> bool:
+    """the function may change the value its local `name` holds: item / attribute store, mutating method, the value
+    handed on to another call, or an alias of it made (conservative)."""
+    for n in walk_no_nested(fn):
+        if isinstance(n, (ast.Subscript, ast.Attribute)) and isinstance(n.ctx, (ast.Store, ast.Del)) and astq.is_name(astq.chain_root(n), name):
+            return True
+        if isinstance(n, ast.Call):
+            if isinstance(n.func, ast.Attribute) and astq.is_name(astq.chain_root(n.func.value), name) and n.func.attr in _MUTATORS | {"pop", "popitem", "clear", "remove", "discard", "sort", "reverse"}:
+                return True
+            for x in list(n.args) + [k.value for k in n.keywords]:
+                x = x.value if isinstance(x, ast.Starred) else x
+                if astq.is_name(x, name) and not (isinstance(astq.parent(n), ast.Raise) or isinstance(n.func, ast.Name) and n.func.id in ("len", "bool", "str", "repr", "isinstance", "sorted", "list", "tuple", "dict", "set", "frozenset")):
+                    return True
+        if isinstance(n, (ast.Assign, ast.AnnAssign, ast.NamedExpr)) and n.value is not None and astq.is_name(n.value, name):
+            return True
+        if isinstance(n, (ast.Yield, ast.Return)) and n.value is not None and astq.is_name(n.value, name):
+            return True
+    return False
+
+
 def _covered(key: str, have: set[str]) -> bool:
     return any(key == k or key.startswith(k + ".") for k in have)
 
@@ -858,19 +977,59 @@ def alias_values_rule(ctx: Ctx, m: Matcher | None = None) -> None:
     if tidx is None:
         raise AnalysisError("StateMachineMatcher.match: the return annotation does not name one mapping element (the matched values)")
     flowT = Flow(m, fnT)
-    results: list[tuple[ast.Return, ast.AST, Node]] = []
-    for ret in astq.returns_of(fnT):
-        node = flowT.g.node_of(ret)
-        v: ast.AST | None = ret.value
-        if isinstance(v, ast.Name) and node is not None:
-            ds = flowT.rd.reaching(node, v.id)
-            if len(ds) == 1 and next(iter(ds)).kind == "assign" and next(iter(ds)).index is None:
-                d0 = next(iter(ds))
-                v, node = d0.value, d0.node
-        if node is None or not isinstance(v, ast.Tuple) or len(v.elts) != len(relts or []) or any(isinstance(x, ast.Starred) for x in v.elts):
-            raise AnalysisError(f"StateMachineMatcher.match: the return at {mfi.loc(ret)} is not a literal (rule, values) pair")
-        results.append((ret, v.elts[tidx], node))
+    flows: dict[int, Flow] = {id(fnT): flowT}
+
+    def flow_of(fn: ast.AST) -> Flow:
+        if id(fn) not in flows:
+            flows[id(fn)] = Flow(m, fn)
+        return flows[id(fn)]
+
+    # (return statement, the values element, node where it is evaluated, function it belongs to): the literal pairs
+    # match() returns, also those of a helper of the matcher whose result match() returns as it is
+    results: list[tuple[ast.Return, ast.AST, Node, ast.AST]] = []
+
+    def collect(fn: ast.AST, depth: int) -> None:
+        fl = flow_of(fn)
+        for ret in astq.returns_of(fn):
+            node = fl.g.node_of(ret)
+            v: ast.AST | None = ret.value
+            if isinstance(v, ast.Name) and node is not None:
+                ds = fl.rd.reaching(node, v.id)
+                if len(ds) == 1 and next(iter(ds)).kind == "assign" and next(iter(ds)).index is None:
+                    d0 = next(iter(ds))
+                    v, node = d0.value, d0.node
+            cal = m.callee(v, fn) if isinstance(v, ast.Call) else None
+            if cal is not None and cal is not fn and id(cal) not in m.results and depth < 2:
+                collect(cal, depth + 1)  # `return self._finish(rule, values)`: the pairs that helper returns
+                continue
+            if node is None or not isinstance(v, ast.Tuple) or len(v.elts) != len(relts or []) or any(isinstance(x, ast.Starred) for x in v.elts):
+                raise AnalysisError(f"StateMachineMatcher.match: the return at {mfi.loc(ret)} is not a literal (rule, values) pair")
+            results.append((ret, v.elts[tidx], node, fn))
+
+    collect(fnT, 0)
     ctx.floor("R12.7", "returns of the match result in StateMachineMatcher.match", len(results), 1)
+
+    def in_match_terms(fn: ast.AST, keys: set[str], skipped: list[str]) -> set[str]:
+        """sources found in a helper, with the helper's parameters replaced by what match() passes for them."""
+        if fn is fnT:
+            return keys
+        params = set(_fn_params(fn))
+        calls = [c for c in astq.calls(fnT, nested=False) if m.callee(c, fnT) is fn]
+        out: set[str] = set()
+        for k in keys:
+            root, _, rest = k.partition(".")
+            if root not in params:
+                out.add(k)
+                continue
+            if not calls:
+                raise AnalysisError(f"{m.fname(fn)} is not called from match(): cannot relate its values to the match result")
+            for c in calls:
+                b = m.bind(c, fn)
+                cn = flowT.g.node_of(c)
+                if b is None or root not in b or cn is None:
+                    raise AnalysisError(f"call of {m.fname(fn)} at {mfi.loc(c)}: the argument for `{root}` is not passed plainly")
+                out |= {s + ("." + rest if rest else "") for s in flowT.sources(b[root], cn, set(), skipped)}
+        return out
 
     for i, (r, fn, _fq) in enumerate(raises):
         where = m.owner_fi[id(fn)]
@@ -878,27 +1037,22 @@ def alias_values_rule(ctx: Ctx, m: Matcher | None = None) -> None:
         if arg is None:
             raise AnalysisError(f"alias-redirect signal raised without its `{sname}` argument at {where.loc(r)}")
         skipped: list[str] = []
-        if fn is fnT:
-            node = flowT.g.node_of(r)
-            if node is None:
-                raise AnalysisError("CFG node missing for the alias raise")
-            have = flowT.sources(arg, node, set(), skipped)
-        else:
-            # raised in a helper: the values are a parameter of the helper, bound at its call(s) in match()
-            flowH = Flow(m, fn)
-            hn = flowH.g.node_of(r)
-            calls = [c for c in astq.calls(fnT, nested=False) if m.callee(c, fnT) is fn]
-            if hn is None or not isinstance(arg, ast.Name) or not all(d.kind == "param" for d in flowH.rd.reaching(hn, arg.id)) or not calls:
-                raise AnalysisError(f"alias-redirect signal raised in {m.fname(fn)} at {where.loc(r)}: cannot relate its values to the match result of match()")
-            have = flowH.sources(arg, hn, set(), skipped) - {arg.id}
-            for c in calls:
-                b = m.bind(c, fn)
-                cn = flowT.g.node_of(c)
-                if b is None or arg.id not in b or cn is None:
-                    raise AnalysisError(f"call of {m.fname(fn)} at {where.loc(c)}: the values argument is not passed plainly")
-                have |= flowT.sources(b[arg.id], cn, set(), skipped)
-        for j, (ret, elt, tnode) in enumerate(results):
-            want = flowT.sources(elt, tnode, set(), [])
+        flowR = flow_of(fn)
+        rn = flowR.g.node_of(r)
+        if rn is None:
+            raise AnalysisError("CFG node missing for the alias raise")
+        own = flowR.sources(arg, rn, set(), skipped)  # in the terms of the function that raises
+        have_T: set[str] | None = None
+        for j, (ret, elt, tnode, gfn) in enumerate(results):
+            want = flow_of(gfn).sources(elt, tnode, set(), [])
+            if gfn is fn:
+                have = own  # raise and result in one function: same names, compared directly
+            else:
+                # different functions: both in the terms of match() (a helper's parameters replaced by the arguments
+                # match() passes)
+                if have_T is None:
+                    have_T = in_match_terms(fn, own, skipped)
+                have, want = have_T, in_match_terms(gfn, want, [])
             missing = sorted(k for k in want if not _covered(k, have))
             tag = f"alias signal {i + 1}" + (f" / result {j + 1}" if len(results) > 1 else "")
             fact = f"match result `{norm(elt)}` is made from {sorted(want)}; the signal's `{norm(arg)}` from {sorted(have)}"
@@ -1015,7 +1169,7 @@ class ConstExec:
         sc = _Scope(fi, stack + (fi.fq,))
         watch_at: dict[int, list[ast.AST]] = {}
         for w in watch:
-            n = cfg.node_of(w)
+            n = cfg.node_of(getattr(w, "_anchor", w))  # a synthetic expression is evaluated where its anchor is
             if n is None:
                 raise AnalysisError(f"no CFG node for `{norm(w)[:60]}` in {fi.qualname}")
             watch_at.setdefault(n.id, []).append(w)
@@ -1223,12 +1377,52 @@ class ConstExec:
         return [UNKNOWN]
 
     def _seq(self, e, env, sc, make):
-        if any(isinstance(x, ast.Starred) for x in e.elts):
-            return [UNKNOWN]
         out = []
-        for combo in self._combos([self.ev(x, env, sc) for x in e.elts]):
-            out.append(UNKNOWN if any(v is UNKNOWN for v in combo) else make(combo))
+        for combo in self._combos([self.ev(x.value if isinstance(x, ast.Starred) else x, env, sc) for x in e.elts]):
+            flat: list[t.Any] = []
+            for x, v in zip(e.elts, combo):
+                if isinstance(x, ast.Starred):  # *seq: the elements of a known sequence
+                    if isinstance(v, tuple) and not isinstance(v, FDict):
+                        flat += list(v)
+                    else:
+                        flat.append(UNKNOWN)
+                else:
+                    flat.append(v)
+            out.append(UNKNOWN if any(v is UNKNOWN for v in flat) else make(flat))
         return out
+
+    def _comp(self, e, env, sc):
+        """a comprehension / generator expression with one `for` over a known sequence: the tuple of its elements."""
+        if len(e.generators) != 1 or e.generators[0].is_async:
+            return [UNKNOWN]
+        gen = e.generators[0]
+        outs = []
+        for seq in self.ev(gen.iter, env, sc):
+            if not isinstance(seq, (tuple, frozenset)) or isinstance(seq, FDict) or len(seq) > 8:
+                outs.append(UNKNOWN)
+                continue
+            items: list[t.Any] = []
+            for item in (sorted(seq, key=repr) if isinstance(seq, frozenset) else seq):
+                e2 = dict(env)
+                self._bind(gen.target, item, e2)
+                if any(nm not in e2 for nm in _store_names(gen.target)):
+                    items = [UNKNOWN]
+                    break
+                ts = [_truths(self.ev(c, e2, sc)) for c in gen.ifs]
+                if any(t_ == {False} for t_ in ts):
+                    continue
+                if any(t_ != {True} for t_ in ts):
+                    items = [UNKNOWN]
+                    break
+                items.append(_one(self.ev(e.elt, e2, sc)))
+            outs.append(UNKNOWN if any(v is UNKNOWN for v in items) else tuple(items))
+        return outs
+
+    def ev_GeneratorExp(self, e, env, sc):  # noqa: N802
+        return self._comp(e, env, sc)
+
+    def ev_ListComp(self, e, env, sc):  # noqa: N802
+        return self._comp(e, env, sc)
 
     def ev_Tuple(self, e, env, sc):  # noqa: N802
         return self._seq(e, env, sc, tuple)
@@ -1351,7 +1545,16 @@ class ConstExec:
             out.append(UNKNOWN if any(not isinstance(v, str) for v in combo) else "".join(combo))
         return out
 
+    def _composed(self, parts: list[ast.AST], env, sc) -> list[t.Any]:
+        out = []
+        for combo in self._combos([[self._fmt(v, -1) for v in self.ev(x, env, sc)] for x in parts]):
+            out.append(UNKNOWN if any(not isinstance(v, str) for v in combo) else "".join(combo))
+        return out
+
     def ev_BinOp(self, e: ast.BinOp, env, sc):  # noqa: N802
+        comp = composed_parts(e) if isinstance(e.op, ast.Mod) else None
+        if comp is not None:
+            return self._composed(comp, env, sc)
         out = []
         for a, b in self._combos([self.ev(e.left, env, sc), self.ev(e.right, env, sc)]):
             ok = isinstance(e.op, ast.Add) and a is not UNKNOWN and b is not UNKNOWN and type(a) is type(b) and isinstance(a, (str, int, tuple)) and not isinstance(a, (bool, FDict))
@@ -1378,8 +1581,8 @@ class ConstExec:
                 if isinstance(b, FDict):
                     hit = [v for k, v in b if type(k) is type(i) and k == i]
                     r = hit[-1] if hit else UNKNOWN
-                elif isinstance(b, (tuple, str)) and isinstance(i, int) and not isinstance(i, bool) and -len(b) <= i < len(b):
-                    r = b[i]
+                elif isinstance(b, (tuple, str)) and isinstance(i, int) and -len(b) <= i < len(b):
+                    r = b[i]  # a bool index is 0 / 1
             out.append(r)
         return out
 
@@ -1407,11 +1610,37 @@ class ConstExec:
                         r = int(v)
                 out.append(r)
             return out
+        if isinstance(f, ast.Name) and f.id in ("all", "any") and f.id not in sc.locals and f.id not in sc.fi.module.assigns and plain and len(e.args) == 1:
+            # three-valued: all() is False as soon as one element is known to be false, whatever the others are
+            arg = e.args[0]
+            if isinstance(arg, (ast.Tuple, ast.List, ast.Set)) and not any(isinstance(x, ast.Starred) for x in arg.elts):
+                per = [_truths(self.ev(x, env, sc)) for x in arg.elts]
+            else:
+                seqs = self.ev(arg, env, sc)
+                if len(seqs) != 1 or not isinstance(seqs[0], (tuple, frozenset)) or isinstance(seqs[0], FDict):
+                    return [UNKNOWN]
+                per = [{bool(v)} for v in seqs[0]]
+            stop = f.id == "any"  # the truth value that decides
+            if any(t_ == {stop} for t_ in per):
+                return [stop]
+            if all(t_ == {not stop} for t_ in per):
+                return [not stop]
+            return [UNKNOWN]
+        if isinstance(f, ast.Attribute) and f.attr == "format" and const_str(f.value) is not None:
+            comp = composed_parts(e)
+            if comp is not None:
+                return self._composed(comp, env, sc)
         if isinstance(f, ast.Attribute) and astq.is_name(f.value, "self") and "self" not in env and sc.fi.cls is not None:
             _, what = self.repo.lookup(sc.fi.cls, f.attr)
             if isinstance(what, FuncInfo):
                 return self.call(what, self._bind_call(what, e, env, sc), sc.stack)
             return [UNKNOWN]
+        if isinstance(f, ast.Name) and f.id not in sc.locals and f.id not in env:
+            # a module-level function of the package (a helper extracted from a method)
+            fq = self.repo.resolve(sc.fi.module, f.id, sc.fi.module.local_imports(sc.fi.node))
+            what = self.repo.try_func(fq) if fq and fq.startswith("werkzeug.") else None
+            if isinstance(what, FuncInfo) and what.cls is None:
+                return self.call(what, self._bind_call(what, e, env, sc), sc.stack)
         if isinstance(f, ast.Attribute) and isinstance(f.value, (ast.Name, ast.Attribute)):
             recvs = self.ev(f.value, env, sc)
             if len(recvs) == 1 and isinstance(recvs[0], Obj):  # a method of a symbolic object
@@ -1634,20 +1863,51 @@ def build_order_rule(ctx: Ctx) -> None:
             if isinstance(n, ast.Attribute) and isinstance(n.value, ast.Attribute) and is_self_attr(n.value) and n.value.attr in map_attrs:
                 read.add(n.attr)
     sorts: list[tuple[FuncInfo, ast.Call]] = []
-    for fi in mcls.methods.values():
+
+    def bound_to(fi: FuncInfo, e: ast.AST) -> list[ast.AST]:
+        """e and what the names in it are bound to in fi: a loop over / an assignment from some expression."""
+        exprs = [e]
+        for nm in astq.names_in(e):
+            for st in ast.walk(fi.node):
+                if isinstance(st, (ast.For, ast.comprehension)) and nm in astq.names_in(st.target):
+                    exprs.append(st.iter)
+                elif isinstance(st, ast.Assign) and any(nm in astq.names_in(tg) for tg in st.targets):
+                    exprs.append(st.value)
+        return exprs
+
+    def is_rule_lists(fi: FuncInfo, exprs: list[ast.AST]) -> bool:
+        names = {nm for x in list(exprs) for nm in astq.names_in(x)}
+        exprs = exprs + [x for nm in names for x in bound_to(fi, ast.Name(id=nm, ctx=ast.Load()))[1:]]  # one more step: `d = self.attr` ... `for k in d: d[k]`
+        return fi.cls is mcls and any(is_self_attr(n) and n.attr in read for x in exprs for n in ast.walk(x))
+
+    mmod = mcls.methods["__init__"].module if "__init__" in mcls.methods else next(iter(mcls.methods.values())).module
+    holders = list(mcls.methods.values()) + list(mmod.functions.values())
+    for fi in holders:
         for c in astq.calls(fi.node):
             col = _sorted_collection(c)
             if col is None:
                 continue
-            exprs = [col]
-            for nm in astq.names_in(col):  # the name's binding: a loop over / an assignment from the attribute
-                for st in ast.walk(fi.node):
-                    if isinstance(st, (ast.For, ast.comprehension)) and nm in astq.names_in(st.target):
-                        exprs.append(st.iter)
-                    elif isinstance(st, ast.Assign) and any(nm in astq.names_in(tg) for tg in st.targets):
-                        exprs.append(st.value)
-            if any(is_self_attr(n) and n.attr in read for x in exprs for n in ast.walk(x)):
+            if is_rule_lists(fi, bound_to(fi, col)):
                 sorts.append((fi, c))
+                continue
+            # the sort sits in a helper that is handed the list: look at what the Map's methods pass for that parameter
+            root = astq.chain_root(col) if isinstance(col, (ast.Attribute, ast.Subscript)) else col
+            if not (isinstance(root, ast.Name) and root.id in fi.params):
+                continue
+            a = fi.node.args  # type: ignore[attr-defined]
+            pos = [x.arg for x in a.posonlyargs + a.args]
+            if fi.cls is not None and "staticmethod" not in fi.decorators and pos:
+                pos = pos[1:]
+            for caller in mcls.methods.values():
+                for c2 in astq.calls(caller.node):
+                    f2 = c2.func
+                    hit = (isinstance(f2, ast.Name) and fi.cls is None and f2.id == fi.name) or \
+                        (isinstance(f2, ast.Attribute) and fi.cls is mcls and f2.attr == fi.name and (astq.is_name(f2.value, "self") or astq.is_name(f2.value, mcls.name)))
+                    if not hit or any(isinstance(x, ast.Starred) for x in c2.args):
+                        continue
+                    given = astq.arg_or_kw(c2, pos.index(root.id), root.id) if root.id in pos else next((k.value for k in c2.keywords if k.arg == root.id), None)
+                    if given is not None and is_rule_lists(caller, bound_to(caller, given)) and not any(x[1] is c for x in sorts):
+                        sorts.append((fi, c))
     ctx.floor("R12.11", "sorts of the per-endpoint rule lists in Map", len(sorts), 1)
     configs = [(k, d) for k in range(3) for d in range(k + 1)]
 
@@ -1665,12 +1925,23 @@ def build_order_rule(ctx: Ctx) -> None:
         ex = ConstExec(repo, {})
         sc = _Scope(fi, (fi.fq,))
 
-        def keyof(o: Obj) -> t.Any:
+        def keyof(o: Obj, key: ast.AST = key, depth: int = 0) -> t.Any:
+            if isinstance(key, ast.Name) and depth < 3 and key.id not in dict(nested_funcs(fi.node)) and key.id not in _store_names(fi.node):
+                exprs = fi.module.assigns.get(key.id) or []
+                if len(exprs) == 1:  # a key function kept in a module-level constant
+                    return keyof(o, exprs[0], depth + 1)
             if isinstance(key, ast.Lambda):
                 a = key.args
                 if len(a.args) != 1 or a.posonlyargs or a.kwonlyargs or a.vararg or a.kwarg:
                     return UNKNOWN
                 return _one(ex.ev(key.body, {a.args[0].arg: o}, sc))
+            local = dict(nested_funcs(fi.node)).get(key.id) if isinstance(key, ast.Name) else None
+            if local is not None:  # a key function defined inside the method: one parameter, one return
+                body = [st for st in local.body if not (isinstance(st, ast.Expr) and isinstance(st.value, ast.Constant))]  # type: ignore[attr-defined]
+                ps = _fn_params(local)
+                if len(ps) == 1 and len(body) == 1 and isinstance(body[0], ast.Return) and body[0].value is not None:
+                    return _one(ex.ev(body[0].value, {ps[0]: o}, sc))
+                return UNKNOWN
             if isinstance(key, ast.Call) and (dotted(key.func) or "").rsplit(".", 1)[-1] == "methodcaller" and len(key.args) == 1 and const_str(key.args[0]) is not None:
                 _, what = repo.lookup(rm.cls, const_str(key.args[0]))
             else:
